@@ -382,6 +382,22 @@ public:
     {
         invariants();
 
+        if (m_size != 0 &&
+            &theData >= m_data &&
+            &theData < m_data + m_size)
+        {
+            // The value is an element of this vector, and moving
+            // or reallocating the elements would change or destroy
+            // it before it's copied, so insert a copy of it.
+            ThisType    theTemp(*m_memoryManager, 1);
+
+            theTemp.push_back(theData);
+
+            insert(thePosition, theCount, theTemp.back());
+
+            return;
+        }
+
         const size_type     theTotalSize = size() + theCount;
 
         // Needs to be optimized
